@@ -108,6 +108,13 @@ func (msg *MsgRecord) ValidateBasic() error {
 		return errorsmod.Wrapf(ErrInvalidTokenId, "invalid token id (%s)", msg.TokenIdHex)
 	}
 
+	// big.Int accepts a sign; a token id is hex digits and nothing else (the rest of the code reads "+1" as 0)
+	for _, c := range msg.TokenIdHex[2:] {
+		if !(('0' <= c && c <= '9') || ('a' <= c && c <= 'f') || ('A' <= c && c <= 'F')) {
+			return errorsmod.Wrapf(ErrInvalidTokenId, "invalid token id (%s)", msg.TokenIdHex)
+		}
+	}
+
 	return nil
 }
 
